@@ -645,6 +645,10 @@ func Project(doc bson.D, proj bson.D) (bson.D, error) {
 	inc, exc := 0, 0
 	idMode := ""
 	for _, p := range proj {
+		if strings.HasPrefix(p.Key, "_id.") {
+			// how a path below _id combines with the implicit inclusion of _id is not fixed by the statement
+			return nil, outside("projection path below _id")
+		}
 		switch v := p.Value.(type) {
 		case bson.D:
 			if len(v) != 1 {
